@@ -593,58 +593,63 @@ theorem pos_below (Dx Dy B' G M : Nat) (hB : 0 < B') (hG : 0 < G) (h1 : G * (10 
 
 set_option exponentiation.threshold 5000
 
-/-- normal doubles of moderate magnitude: `2^52 ≤ m < 2^53`, `-1000 ≤ e ≤ 960` -/
-def wfn (m : Nat) (e : Int) : Prop := 2 ^ 52 ≤ m ∧ m < 2 ^ 53 ∧ -1000 ≤ e ∧ e ≤ 960
+/-- normal doubles: `2^52 ≤ m < 2^53`, `-1074 ≤ e ≤ 971` (from `2^-1022` to the largest finite double) -/
+def wfn (m : Nat) (e : Int) : Prop := 2 ^ 52 ≤ m ∧ m < 2 ^ 53 ∧ -1074 ≤ e ∧ e ≤ 971
 
-theorem pow_facts : (2 : Nat) ^ 948 ≤ 10 ^ 286 ∧ (2 : Nat) ^ 1013 ≤ 10 ^ 305 ∧ 20 * 10 ^ 12 ≤ (2 : Nat) ^ 53 := by
-  refine ⟨by decide +kernel, by decide +kernel, by decide +kernel⟩
+theorem pow_facts : (2 : Nat) ^ 1022 ≤ 10 ^ 308 ∧ (2 : Nat) ^ 1024 ≤ 10 ^ 309 ∧ 20 * 10 ^ 12 ≤ (2 : Nat) ^ 53 ∧
+    20 * 10 ^ 13 ≤ (2 : Nat) ^ 52 := by
+  refine ⟨by decide +kernel, by decide +kernel, by decide +kernel, by decide +kernel⟩
 
-/-- the decimal exponent of a normal double below `2^1013` lies between -286 and 304 -/
-theorem kbounds (m : Nat) (e : Int) (h : wfn m e) : -286 ≤ floorLog10 m e ∧ floorLog10 m e ≤ 304 := by
+/-- the decimal exponent of a finite non-zero double is at most 308 -/
+theorem klog_le_308 (m : Nat) (e : Int) (hm0 : m ≠ 0) (h2 : m < 2 ^ 53) (he1 : -1074 ≤ e) (h4 : e ≤ 971) :
+    floorLog10 m e ≤ 308 := by
+  obtain ⟨s1, s2⟩ := floorLog10_spec m e hm0 h2 he1 h4
+  have eU : (-(-1074 : Int)).toNat = 1074 := by decide
+  apply Classical.byContradiction
+  intro hgt
+  have hge : GE (2 ^ (-(-1074 : Int)).toNat) (units (-1074) m e) 309 := by
+    have : floorLog10 m e = 309 + ((floorLog10 m e - 309).toNat : Int) := by omega
+    rw [this] at s1
+    exact GE_mono_le _ _ _ _ s1
+  unfold GE at hge
+  have z1 : ((309 : Int)).toNat = 309 := by decide
+  have z2 : (-(309 : Int)).toNat = 0 := by decide
+  rw [z1, z2, Nat.pow_zero, Nat.mul_one, eU] at hge
+  unfold units at hge
+  have hE : (e - (-1074)).toNat ≤ 2045 := by omega
+  have a1 : m * 2 ^ (e - (-1074)).toNat < 2 ^ 53 * 2 ^ 2045 :=
+    Nat.lt_of_lt_of_le (Nat.mul_lt_mul_of_pos_right h2 (two_pow_pos _))
+      (Nat.mul_le_mul_left _ (Nat.pow_le_pow_right (by decide) hE))
+  have a2 : (2 : Nat) ^ 53 * 2 ^ 2045 ≤ 2 ^ 1074 * 2 ^ 1024 := by decide +kernel
+  have a3 : (2 : Nat) ^ 1074 * 2 ^ 1024 ≤ 2 ^ 1074 * 10 ^ 309 := Nat.mul_le_mul_left _ pow_facts.2.1
+  omega
+
+/-- the decimal exponent of a normal double lies between -308 and 308 -/
+theorem kbounds (m : Nat) (e : Int) (h : wfn m e) : -308 ≤ floorLog10 m e ∧ floorLog10 m e ≤ 308 := by
   obtain ⟨h1, h2, h3, h4⟩ := h
   have hm0 : m ≠ 0 := by
     intro h0; subst h0
     have := two_pow_pos 52; omega
-  obtain ⟨s1, s2⟩ := floorLog10_spec m e hm0 h2 (by omega) (by omega)
+  refine ⟨?_, klog_le_308 m e hm0 h2 h3 h4⟩
+  obtain ⟨s1, s2⟩ := floorLog10_spec m e hm0 h2 h3 h4
   have eU : (-(-1074 : Int)).toNat = 1074 := by decide
-  constructor
-  · -- GE (-286)
-    apply Classical.byContradiction
-    intro hlt
-    apply s2
-    have hge : GE (2 ^ (-(-1074 : Int)).toNat) (units (-1074) m e) (-286) := by
-      unfold GE
-      have z1 : ((-286 : Int)).toNat = 0 := by decide
-      have z2 : (-(-286 : Int)).toNat = 286 := by decide
-      rw [z1, z2, Nat.pow_zero, Nat.mul_one, eU]
-      unfold units
-      have hE : 74 ≤ (e - (-1074)).toNat := by omega
-      have a1 : 2 ^ 52 * 2 ^ 74 ≤ m * 2 ^ (e - (-1074)).toNat :=
-        Nat.mul_le_mul h1 (Nat.pow_le_pow_right (by decide) hE)
-      have a2 : (2 : Nat) ^ 1074 = 2 ^ 52 * 2 ^ 74 * 2 ^ 948 := by rw [← Nat.pow_add, ← Nat.pow_add]
-      rw [a2]
-      exact Nat.mul_le_mul a1 pow_facts.1
-    have : (-286 : Int) = floorLog10 m e + 1 + ((-286 - floorLog10 m e - 1).toNat : Int) := by omega
-    rw [this] at hge
-    exact GE_mono_le _ _ _ _ hge
-  · apply Classical.byContradiction
-    intro hgt
-    have hge : GE (2 ^ (-(-1074 : Int)).toNat) (units (-1074) m e) 305 := by
-      have : floorLog10 m e = 305 + ((floorLog10 m e - 305).toNat : Int) := by omega
-      rw [this] at s1
-      exact GE_mono_le _ _ _ _ s1
-    unfold GE at hge
-    have z1 : ((305 : Int)).toNat = 305 := by decide
-    have z2 : (-(305 : Int)).toNat = 0 := by decide
-    rw [z1, z2, Nat.pow_zero, Nat.mul_one, eU] at hge
-    unfold units at hge
-    have hE : (e - (-1074)).toNat ≤ 2034 := by omega
-    have a1 : m * 2 ^ (e - (-1074)).toNat < 2 ^ 53 * 2 ^ 2034 :=
-      Nat.lt_of_lt_of_le (Nat.mul_lt_mul_of_pos_right h2 (two_pow_pos _))
-        (Nat.mul_le_mul_left _ (Nat.pow_le_pow_right (by decide) hE))
-    have a2 : (2 : Nat) ^ 53 * 2 ^ 2034 ≤ 2 ^ 1074 * 2 ^ 1013 := by decide +kernel
-    have a3 : (2 : Nat) ^ 1074 * 2 ^ 1013 ≤ 2 ^ 1074 * 10 ^ 305 := Nat.mul_le_mul_left _ pow_facts.2.1
-    omega
+  apply Classical.byContradiction
+  intro hlt
+  apply s2
+  have hge : GE (2 ^ (-(-1074 : Int)).toNat) (units (-1074) m e) (-308) := by
+    unfold GE
+    have z1 : ((-308 : Int)).toNat = 0 := by decide
+    have z2 : (-(-308 : Int)).toNat = 308 := by decide
+    rw [z1, z2, Nat.pow_zero, Nat.mul_one, eU]
+    unfold units
+    have a1 : 2 ^ 52 ≤ m * 2 ^ (e - (-1074)).toNat :=
+      Nat.le_trans h1 (Nat.le_mul_of_pos_right _ (two_pow_pos _))
+    have a2 : (2 : Nat) ^ 1074 = 2 ^ 52 * 2 ^ 1022 := by rw [← Nat.pow_add]
+    rw [a2]
+    exact Nat.mul_le_mul a1 pow_facts.1
+  have : (-308 : Int) = floorLog10 m e + 1 + ((-308 - floorLog10 m e - 1).toNat : Int) := by omega
+  rw [this] at hge
+  exact GE_mono_le _ _ _ _ hge
 
 /-- the half-ulp bound on the common scale -/
 theorem halfulp_scaled (prec : Nat) (emin emaxE : Int) (n : Nat) (nd : Int) (m' : Nat) (e' : Int)
@@ -716,7 +721,7 @@ theorem sci_core (m : Nat) (e : Int) (h : wfn m e) (d : Nat) (hd : d ≤ 12) (m'
     (hr : nd53 (roundScaled m e ((d : Int) - floorLog10 m e)) ((d : Int) - floorLog10 m e) = some (m', e')) :
     RoundedOk m' e' ∧
     10 ^ d ≤ (sci m' e' d).1 ∧ (sci m' e' d).1 < 10 ^ (d + 1) ∧
-    -300 ≤ (sci m' e' d).2 ∧ (sci m' e' d).2 ≤ 320 ∧
+    -310 ≤ (sci m' e' d).2 ∧ (sci m' e' d).2 ≤ 320 ∧
     nd53 (sci m' e' d).1 ((d : Int) - (sci m' e' d).2) = some (m', e') ∧
     nd53 (roundScaled m' e' ((d : Int) - floorLog10 m' e')) ((d : Int) - floorLog10 m' e') = some (m', e') ∧
     floorLog10 m e - 1 ≤ floorLog10 m' e' ∧ floorLog10 m' e' ≤ floorLog10 m e + 1 ∧
@@ -744,11 +749,9 @@ theorem sci_core (m : Nat) (e : Int) (h : wfn m e) (d : Nat) (hd : d ≤ 12) (m'
       refine ⟨a, b, c, fun hne => h4 ?_⟩
       exact Nat.mul_ne_zero hne (Nat.ne_of_gt (ten_pow_pos _))
   obtain ⟨hm', he1', he2', hnz⟩ := hnorm
-  have hXbig : 2 ^ 126 ≤ units (-1074) m e := by
-    show 2 ^ 126 ≤ m * 2 ^ (e - (-1074)).toNat
-    have h74 : 2 ^ 74 ≤ 2 ^ (e - (-1074)).toNat := Nat.pow_le_pow_right (by decide) (by omega)
-    calc 2 ^ 126 = 2 ^ 52 * 2 ^ 74 := by decide +kernel
-      _ ≤ m * 2 ^ (e - (-1074)).toNat := Nat.mul_le_mul hm52 h74
+  have hXbig : 2 ^ 52 ≤ units (-1074) m e := by
+    show 2 ^ 52 ≤ m * 2 ^ (e - (-1074)).toNat
+    exact Nat.le_trans hm52 (Nat.le_mul_of_pos_right _ (two_pow_pos _))
   have hYsub : e' = -1074 → units (-1074) m' e' = m' := by
     intro h; subst h; simp [units]
   -- everything on the common scale
@@ -905,10 +908,12 @@ theorem sci_core (m : Nat) (e : Int) (h : wfn m e) (d : Nat) (hd : d ≤ 12) (m'
     have hB' : 0 < U * T (k - d - 1) := hY0
     have hn0pos : n0 ≠ 0 := by omega
     have hS0 : 0 < S := by rw [← hS]; exact ten_pow_pos _
-    have hm52' : 2 ^ 52 ≤ m' := by
+    have hGle : G ≤ 10 ^ 12 := by rw [← hGd]; exact Nat.pow_le_pow_right (by decide) hd
+    have h5 : 20 * G ≤ 2 * m' := by
       rcases hnz hn0pos with h | h
-      · exact h
-      · exfalso
+      · have := pow_facts.2.2.1
+        omega
+      · -- r is subnormal: its significand is its value in units, still above 10^13
         have hY : Y = m' := hYsub h
         have a1 : G * (U * T (k - d)) ≤ n0 * (U * T (k - d)) := Nat.mul_le_mul_right _ f1
         have a2 : U * T (k - d) ≤ G * (U * T (k - d)) := Nat.le_mul_of_pos_left _ hG
@@ -917,18 +922,15 @@ theorem sci_core (m : Nat) (e : Int) (h : wfn m e) (d : Nat) (hd : d ≤ 12) (m'
           have : 20 * Y * S = 20 * (Y * S) := by grind
           omega
         have a4 : X < 20 * Y := Nat.lt_of_mul_lt_mul_right a3
+        have := pow_facts.2.2.2
         omega
     rw [hBB] at h1 h2 hyc
     have hoptx' := hoptx
     have hulp' := hulp
     rw [hn0, hBB] at hoptx' hulp'
-    have h5 : 20 * G ≤ 2 * m' := by
-      have := pow_facts.2.2
-      have : G ≤ 10 ^ 12 := by rw [← hGd]; exact Nat.pow_le_pow_right (by decide) hd
-      omega
     obtain ⟨g1, g2, g3⟩ := pos_below (X * S) (Y * S) (U * T (k - d - 1)) G m' hB' hG h1 h2 hoptx' hyc hulp' h5
     rw [← hBB, ← hn0] at g1
-    have hm0' : m' ≠ 0 := by have := two_pow_pos 52; omega
+    have hm0' : m' ≠ 0 := by omega
     have hk' : floorLog10 m' e' = k - 1 := by
       apply hexp (k - 1) (by omega) (by omega) hm0'
       · have : U * T (k - 1) = G * (U * T (k - d - 1)) := by rw [hTkm1]; grind
